@@ -167,6 +167,25 @@ CLAIMS = {
         technique="static analysis: may-raise analysis over guard facts with linear entailment + finite-quotient abstract evaluation (ast)",
         ref="DESIGN.md §3 C17",
     ),
+    "C19": dict(
+        text=(
+            "Decides the structural clauses of C19: (RNG-1) import/name scan: inside cspuz/generator only srandom.py uses "
+            "random/numpy.random/secrets/time/os.urandom and only deterministic_random.py touches its generator; (RNG-2) each "
+            "srandom function forwards unchanged to the right backend for both flag values; (RNG-4) a bit-width abstract "
+            "interpretation of XorShift.next proves inductively that all state words and the output stay below 2**32, and the "
+            "domain constant equals that bound; (RNG-3) randint evaluated with a scripted generator at the block boundaries of "
+            "seven intervals: accepted draws are exactly those below the largest multiple of the width, result a + x % w, "
+            "empty/oversized intervals rejected; (RNG-6) shuffle maps the draw scripts of 0..4 items bijectively onto the "
+            "permutations, choice indexes with randint(0, len-1); (RNG-7) random() = next()/2**32; equal seeds, equal streams; "
+            "(GEN-1) generate_problem under all 3^4 x 2 x 2 scripted callback behaviours returns None or a problem whose own "
+            "solver call was SAT and whose answer passed uniqueness; (GEN-2, PUR-2) every update ArrayBuilder2D proposes on 4 "
+            "boards x 8 option sets keeps range, choice set, point symmetry and adjacency, and copy_with_update/neighbour "
+            "generation never mutate or share rows with the previous problem. Not decided: xorshift's statistical quality."
+        ),
+        note="Trusted: the abstract evaluator; uniformity is argued from whole-block acceptance + a + x % w + the proven generator range.",
+        technique="static analysis: import/name confinement scan, bit-width abstract interpretation, abstract evaluation with scripted generators/callbacks (ast)",
+        ref="DESIGN.md §3 C19",
+    ),
 }
 
 NOT_APPLICABLE = {
